@@ -48,9 +48,11 @@ impl<'i> super::ExecutableInstruction<'i> for ApMap<'i> {
         // because it's necessary to check argument lambda, for more details see
         // https://github.com/fluencelabs/aquavm/issues/216
         let result = joinable!(apply_to_arg(&self.value, exec_ctx, trace_ctx, true), exec_ctx, ())?;
+        // the key is resolved before the state is accessed for the same reason: a key that does not resolve (or is
+        // not a valid map key) must fail or join without consuming the ap state of the merged data
+        let key = joinable!(resolve_key_if_needed(&self.key, exec_ctx, self.map.name), exec_ctx, ())?;
 
         let merger_ap_result = to_merger_ap_map_result(&self, trace_ctx)?;
-        let key = joinable!(resolve_key_if_needed(&self.key, exec_ctx, self.map.name), exec_ctx, ())?;
         populate_context(key, &self.map, &merger_ap_result, result, exec_ctx)?;
         trace_ctx.meet_ap_end(ApResult::stub());
 
